@@ -253,3 +253,20 @@ SPECS['C05'] = dict(
     quick=dict(workers=16, cases=400, size=100, timeout=1500),
     thorough=dict(workers=16, cases=16000, size=100, timeout=7200),
 )
+
+SPECS['C07'] = dict(
+    kind='native', drivers=['p_c07.cpp'], shims=['sut_strm', 'sut_tz'], with_lib=True,
+    level='exploration', exhaustive_part=True,
+    technique='sweep of every installed zone and transition against an independent TZif reader (cross-checked with glibc) + generated TZID rules against the RFC reference on the local calendar',
+    level_text=('Every distinct file under /usr/share/zoneinfo is read by an independent linear-scan TZif reader; around every transition 1902-2037 and on the 1st/15th of every month '
+                'the UTC->local image, the reported offset and, for unambiguous local times, the local->UTC inverse are compared (thorough adds an interleaved second pass that exercises the zone cache). Generated DTSTART;TZID rules (DAILY/WEEKLY/MONTHLY/YEARLY, 20 zones, local hours biased to 0-3 and 23) are unrolled and each '
+                'occurrence compared with the zoneinfo meaning of the local time the RFC reference yields.'),
+    level_note='trusts oracle/tzif_ref.hpp (its offsets are compared with glibc localtime_r on sampled points of every zone in every run; a disagreement is reported as broken oracle) and oracle/rrule_ref.hpp',
+    rule=('sweep point = (zone, UTC second): transitions +-{0,1 s,59 min,1 h,1 d} and noon of the 1st/15th of each month; non-trivial = the local image is unambiguous so both directions are judged. '
+          'rule case = (zone, local DTSTART, rule, window of 30..400 occurrences); non-trivial = >=10 occurrences judged and the window has occurrences on both sides of an offset change. '
+          'ambiguous / non-existent local times are counted, not judged. distinct = distinct points / case texts'),
+    assumptions=['relative to the installed zoneinfo files; instants are limited to 1902..2037 (32-bit data block that echse reads)',
+                 'zones are dealt to forked children in batches because tzob.c can intern only 64 zone names per process'],
+    quick=dict(workers=16, cases=1500, size=100, timeout=1500),
+    thorough=dict(workers=16, cases=6000, size=100, timeout=7200),
+)
